@@ -2007,8 +2007,11 @@ def check_C11(res):
     check_sched(res, 'C11')
 
 
-C06_THEOREMS = ['Blf.Props.C06_queue_no_deadlock', 'Blf.Props.C06_queue_terminates', 'Blf.Props.C06_queue_no_lost_wakeup']
-C07_THEOREMS = ['Blf.Props.C07_queue_result']
+C06_THEOREMS = ['Blf.Props.C06_queue_no_deadlock', 'Blf.Props.C06_queue_terminates', 'Blf.Props.C06_queue_no_lost_wakeup',
+                'Blf.Props.C06_read_pipeline_no_deadlock', 'Blf.Props.C06_read_pipeline_terminates', 'Blf.Props.C06_read_pipeline_no_lost_wakeup',
+                'Blf.Props.C06_tie_read', 'Blf.Props.C06_write_pipeline_no_deadlock', 'Blf.Props.C06_write_pipeline_terminates']
+C07_THEOREMS = ['Blf.Props.C07_queue_result', 'Blf.Props.C07_read_pipeline_prefix', 'Blf.Props.C07_read_pipeline_eof_last',
+                'Blf.Props.C07_write_pipeline_result', 'Blf.Props.C07_write_pipeline_prefix']
 C11_THEOREMS = []
 
 
